@@ -281,8 +281,10 @@ func (f *filler) bytes() []byte {
 	case 10:
 		return f.s.Bytes(250, 260) // around the 1-byte / 2-byte length boundary
 	default:
-		if f.s.N(8) == 0 {
-			return f.s.Bytes(65530, 65540)
+		if f.s.N(12) == 0 {
+			// around the 2-byte / 3-byte length boundary; expanded from a seed (cheap to draw)
+			n := int(f.s.Int(65530, 65540))
+			return expand(uint64(f.s.Int(0, 1<<62)), n)
 		}
 		return f.s.Bytes(0, 300)
 	}
@@ -306,7 +308,7 @@ func (f *filler) fill(rv reflect.Value) {
 			keys = append(keys, int(b))
 		}
 		sort.Ints(keys)
-		k := f.s.N(len(keys)*4 + 1)
+		k := f.s.Pick(len(keys)*4 + 1)
 		if k == len(keys)*4 {
 			f.nNil++
 			return // nil interface value
@@ -466,7 +468,15 @@ func (f *filler) fill(rv reflect.Value) {
 //   - unexported fields and fields tagged json:"-" are not wire fields (they are caches: Commit.hash,
 //     Data.hash, Part.hash, ValidatorSet.proposer/totalVotingPower, or runtime handles: State.db);
 //   - big.Int compares by value.
-func normDiff(a, b reflect.Value, path string) string {
+func normDiff(a, b reflect.Value, path string) string { return normDiffOpt(a, b, path, false) }
+
+// normDiffLax is normDiff for values that were not produced by the typed generators (values a
+// decoder returned for arbitrary bytes): a time.Time outside the int64-nanosecond range of the
+// binary codec (only the untouched Go zero value time.Time{} can occur there, when the input
+// ended before / a nil pointer stood in front of the field) is not a wire value and is not compared.
+func normDiffLax(a, b reflect.Value, path string) string { return normDiffOpt(a, b, path, true) }
+
+func normDiffOpt(a, b reflect.Value, path string, lax bool) string {
 	if a.IsValid() != b.IsValid() {
 		return path + "(validity)"
 	}
@@ -490,10 +500,13 @@ func normDiff(a, b reflect.Value, path string) string {
 			}
 			return ""
 		}
-		return normDiff(a.Elem(), b.Elem(), path)
+		return normDiffOpt(a.Elem(), b.Elem(), path, lax)
 	case reflect.Struct:
 		if a.Type() == timeType {
 			ta, tb := a.Interface().(time.Time), b.Interface().(time.Time)
+			if lax && (ta.Year() < 1679 || ta.Year() > 2261) {
+				return ""
+			}
 			if !timeEq(ta, tb) {
 				return path + "(time)"
 			}
@@ -511,7 +524,7 @@ func normDiff(a, b reflect.Value, path string) string {
 			if skipField(sf) {
 				continue
 			}
-			if d := normDiff(a.Field(i), b.Field(i), path+"."+sf.Name); d != "" {
+			if d := normDiffOpt(a.Field(i), b.Field(i), path+"."+sf.Name, lax); d != "" {
 				return d
 			}
 		}
@@ -521,7 +534,7 @@ func normDiff(a, b reflect.Value, path string) string {
 			return fmt.Sprintf("%s(len %d vs %d)", path, a.Len(), b.Len())
 		}
 		for i := 0; i < a.Len(); i++ {
-			if d := normDiff(a.Index(i), b.Index(i), path+"[]"); d != "" {
+			if d := normDiffOpt(a.Index(i), b.Index(i), path+"[]", lax); d != "" {
 				return d
 			}
 		}
@@ -625,6 +638,27 @@ func (m *miniCtx) NonTrivial(fp ...string) {
 	if len(fp) > 0 {
 		m.fp = strings.Join(fp, "|")
 	}
+}
+
+// expand derives n pseudo-random bytes from a drawn seed (pure function of the draw).
+func expand(seed uint64, n int) []byte {
+	out := make([]byte, n)
+	x := seed
+	for i := range out {
+		x += 0x9E3779B97F4A7C15
+		z := x
+		z = (z ^ (z >> 30)) * 0xBF58476D1CE4E5B9
+		z = (z ^ (z >> 27)) * 0x94D049BB133111EB
+		out[i] = byte(z ^ (z >> 31))
+	}
+	return out
+}
+
+// Pick draws an index in [0,n) without rapid's bias toward small values mattering for the
+// distribution over table entries (the draw shrinks to 0 = first entry).
+func (s *src) Pick(n int) int {
+	x := uint64(s.Int(0, 1<<40))
+	return int((x * 0x9E3779B97F4A7C15 >> 20) % uint64(n))
 }
 
 func lenBucket(n int) string {
